@@ -28,6 +28,18 @@ BOUNDS = [(0, None), (0, None), (0, 0), (0, 1), (0, 2), (0, 3), (1, None), (1, 1
           (2, 3), (3, None), (3, 3), (0, 5), (2, 6)]
 
 
+def vp(x):
+    """what a value is after a pickle round trip: the same values, new objects (identity atoms become value atoms)"""
+    if isinstance(x, list):
+        return [vp(y) for y in x]
+    if isinstance(x, dict):
+        return {"d": [[vp(k), vp(v)] for k, v in x["d"]]}
+    return x % 1000 if isinstance(x, int) and x >= 1000 else x
+
+
+REPICKLE = 0.05        # probability of "the owner object goes through pickle.dumps / pickle.loads" per operation
+
+
 def gen_source(rnd):
     """how the assigned value is built: a plain container, or an ownerless trait container of the same trait"""
     return rnd.choice(["plain", "plain", "plain", "plain", "deepcopy", "deepcopy", "orphan", "copy", "pickle", "self"])
@@ -54,7 +66,8 @@ def list_term(case, obs):
     for op, ob in zip(case["ops"], obs):
         if op[0] == "Assign":
             # source "self": the value assigned is the trait's own current value
-            t = C("LAssign", bool(op[1]), list(prev if (len(op) > 3 and op[3] == "self") else op[2]))
+            src = op[3] if len(op) > 3 else "plain"
+            t = C("LAssign", bool(op[1]), list(prev if src == "self" else vp(prev) if src == "repickle" else op[2]))
         else:
             t = C("LOp", c05.op_term(op, prev))
         prev = list(ob["after"])
@@ -69,6 +82,9 @@ def gen_list(rnd, ctx, maxops, maxinit):
     # sprinkle whole-value assignments
     ops = []
     for op in case["ops"]:
+        if rnd.random() < REPICKLE:
+            ops.append(["Assign", True, None, "repickle"])
+            ctx.count("op:list.Assign-repickle")
         if rnd.random() < 0.12:
             n = rnd.choice([0, 1, 2, 3, 4, bounds[0], (bounds[1] or 0) + 1])
             src = gen_source(rnd)
@@ -91,7 +107,7 @@ SEXN = ("KeyError", "TraitError", "TypeError", "AttributeError")
 def sop_term(op, ob, prev=None):
     k = op[0]
     if k == "Assign":
-        return C("SAssign", bool(op[1]), list(prev if (len(op) > 3 and op[3] == "self") else op[2]))
+        return C("SAssign", bool(op[1]), list(prev if (len(op) > 3 and op[3] in ("self", "repickle")) else op[2]))
     if k in ("Add", "Discard", "Remove"):
         t = C("S." + k, op[1])
     elif k == "Pop":
@@ -131,6 +147,8 @@ def gen_set(rnd, ctx, maxops):
 
     ops = []
     for _ in range(rnd.randint(1, maxops)):
+        if rnd.random() < REPICKLE:
+            ops.append(["Assign", True, None, "repickle"])
         k = rnd.choice(["Add", "Add", "Discard", "Remove", "Pop", "Clear", "Update", "Update", "Ior", "Iand", "Isub",
                         "Ixor", "Ixor", "DiffUpdate", "InterUpdate", "SymDiffUpdate", "SymDiffUpdate", "Assign"])
         if k in ("Add", "Discard", "Remove"):
@@ -166,7 +184,7 @@ def dop_term(op, prev=None):
     k = op[0]
     ps = lambda l: [(a, b) for a, b in l]  # noqa
     if k == "Assign":
-        return C("DAssign", bool(op[1]), ps(prev if (len(op) > 3 and op[3] == "self") else op[2]))
+        return C("DAssign", bool(op[1]), ps(prev if (len(op) > 3 and op[3] in ("self", "repickle")) else op[2]))
     if k == "UpdateKw":
         return C("DUpdateKw", ps(op[1] or []), ps(op[2]))
     if k == "SetItem":
@@ -213,6 +231,8 @@ def gen_dict(rnd, ctx, maxops):
 
     ops = []
     for _ in range(rnd.randint(1, maxops)):
+        if rnd.random() < REPICKLE:
+            ops.append(["Assign", True, None, "repickle"])
         k = rnd.choice(["SetItem", "SetItem", "SetItem", "DelItem", "Update", "Update", "Ior", "SetDefault",
                         "SetDefault", "Pop", "Pop", "PopItem", "Clear", "Assign", "UpdateKw"])
         if k == "SetItem":
@@ -258,8 +278,10 @@ def maybe_loose(rnd, v):
     return {"loose": v} if (v is not None and rnd.random() < 0.2) else v
 
 
-def nop_term(op):
+def nop_term(op, prev=None):
     k = op[0]
+    if k == "NAssign" and op[-1] == "repickle":
+        return C(k, opt([C("RList", list(r)) for r in vp(prev)]))
     if k in ("NAppend",):
         return C(k, raw_term(op[1]))
     if k == "NExtend":
@@ -284,8 +306,10 @@ def nop_term(op):
 
 
 def nested_term(case, obs):
-    h = [(nop_term(op), C("mkN", out_l(ob["out"]), [list(i) for i in ob["after"]], Nat(ob["nev"])))
-         for op, ob in zip(case["ops"], obs)]
+    h, prev = [], [list(i) for i in case["init"]]
+    for op, ob in zip(case["ops"], obs):
+        h.append((nop_term(op, prev), C("mkN", out_l(ob["out"]), [list(i) for i in ob["after"]], Nat(ob["nev"]))))
+        prev = [list(i) for i in ob["after"]]
     return (C(case["vk"]), (case["ib"][0], opt(case["ib"][1])), (case["ob"][0], opt(case["ob"][1])),
             [list(i) for i in case["init"]], h)
 
@@ -323,6 +347,8 @@ def gen_nested(rnd, ctx, maxops):
     n = n0
     ops = []
     for _ in range(rnd.randint(1, maxops)):
+        if rnd.random() < REPICKLE:
+            ops.append(["NAssign", "prev", "repickle"])
         k = rnd.choice(["NAppend", "NAppend", "NExtend", "NInsert", "NSetInt", "NSetInt", "NSetSlice", "NSetSlice",
                         "NDelInt", "NDelSlice", "NPop", "NReverse", "NClear", "NAssign", "NInner", "NInner", "NInner",
                         "NInner"])
@@ -370,8 +396,10 @@ def gen_nested(rnd, ctx, maxops):
 
 
 # ---------------------------------------------------------------- Dict(Str, List(Int)): law only
-def ndop_term(op):
+def ndop_term(op, prev=None):
     k = op[0]
+    if k == "Assign" and op[-1] == "repickle":
+        return C("NDAssign", [(a, C("RList", list(v))) for a, v in vp({"d": prev})["d"]])
     if k in ("SetItem", "SetDefault"):
         return C("ND" + k, op[1], raw_term(op[2]))
     if k in ("Update", "Assign"):
@@ -386,8 +414,10 @@ def ndop_term(op):
 
 
 def ndict_term(case, obs):
-    h = [(ndop_term(op), C("mkND", out_l(ob["out"]), [(k, list(v)) for k, v in ob["after"]], Nat(ob["nev"])))
-         for op, ob in zip(case["ops"], obs)]
+    h, prev = [], [[k, list(v)] for k, v in case["init"]]
+    for op, ob in zip(case["ops"], obs):
+        h.append((ndop_term(op, prev), C("mkND", out_l(ob["out"]), [(k, list(v)) for k, v in ob["after"]], Nat(ob["nev"]))))
+        prev = [[k, list(v)] for k, v in ob["after"]]
     return (C(case.get("vk", "VInt")), (case["ib"][0], opt(case["ib"][1])), [(k, list(v)) for k, v in case["init"]], h)
 
 
@@ -420,6 +450,8 @@ def gen_ndict(rnd, ctx, maxops):
     present = [k for k, _ in init]
     ops = []
     for _ in range(rnd.randint(1, maxops)):
+        if rnd.random() < REPICKLE:
+            ops.append(["Assign", None, "repickle"])
         k = rnd.choice(["SetItem", "SetItem", "Update", "SetDefault", "DelItem", "Pop", "Clear", "Assign", "Inner",
                         "Inner", "Inner"])
         if k == "SetItem":
@@ -517,15 +549,18 @@ def dgop_term(g):
 
 
 def deep_term(case, obs):
-    h = []
+    h, prev = [], case["init"]
     for op, ob in zip(case["ops"], obs):
-        if op[0] == "Assign":
+        if op[0] == "Assign" and op[-1] == "repickle":
+            t = C("DPAssign", item_term(vp(prev)))
+        elif op[0] == "Assign":
             t = C("DPAssign", item_term(op[1]))
         else:
             path = [C("PKey", e["k"]) if isinstance(e, dict) else C("PIdx", Nat(e)) for e in op[1]]
             kind, g = op[2]
             t = C("DPath", path, C("OnList", gop_term(g)) if kind == "L" else C("OnDict", dgop_term(g)))
         h.append((t, C("mkDP", out_l(ob["out"]), item_term(ob["after"]), Nat(ob["nev"]))))
+        prev = ob["after"]
     return (ttype_term(case["type"]), item_term(case["init"]), h)
 
 
@@ -583,6 +618,8 @@ def gen_deep(rnd, ctx, maxops):
         init = [] if t[0] == "L" else {"d": []}
     ops = []
     for _ in range(rnd.randint(1, maxops)):
+        if rnd.random() < REPICKLE:
+            ops.append(["Assign", None, "repickle"])
         if rnd.random() < 0.12:
             ops.append(["Assign", raw(t)])
             ctx.count("op:deep.Assign")
@@ -795,6 +832,21 @@ def corpus():
     cs.append(dict(kind="list", vk="VInt", minlen=1, maxlen=3, init=[1, 2], init_mode="default", ops=[
         ["Append", 3], ["Append", 4], ["Pop", None], ["SetInt", 0, 200], ["Extend", None, "self"], ["Clear"],
         ["ImulQ", 1, 2, "float"], ["ImulQ", 5, 2, "float"], ["ImulQ", 3, 2, "fraction"], ["Imul", 0, "bool"]]))
+    cs.append(dict(kind="list", vk="VInt", minlen=0, maxlen=3, init=[1, 2], ops=[
+        ["Assign", True, None, "repickle"], ["Append", 200], ["Append", 105], ["Append", 3], ["Append", 4], ["SetInt", 0, 201]]))
+    cs.append(dict(kind="set", vk="VInt", hooks=True, init=[1, 2], ops=[
+        ["Add", 200], ["Add", 105], ["Add", 3], ["Update", [[4, 201]]], ["Ior", "set", [5, 105]], ["Assign", True, [1, 200], "plain"],
+        ["Assign", True, None, "repickle"], ["Add", 200], ["Add", 6]]))
+    cs.append(dict(kind="set", vk="VInc", hooks=True, init=[1, 2], ops=[["Add", 5], ["Add", 105], ["Update", [[7], [200]]]]))
+    cs.append(dict(kind="dict", kk="VInt", vk="VInc", hooks=True, init=[[1, 2]], ops=[
+        ["SetItem", 2, 3], ["SetItem", 105, 3], ["SetItem", 3, 200], ["Assign", True, None, "repickle"], ["SetItem", 105, 3],
+        ["SetItem", 4, 200], ["Update", True, [[5, 5], [200, 1]]]]))
+    cs.append(dict(kind="nested", vk="VInt", hooks=True, ib=[0, 2], ob=[0, 3], init=[[1], [2]], ops=[
+        ["NAssign", "prev", "repickle"], ["NAppend", [1, 2, 3]], ["NAppend", [200]], ["NInner", 0, ["Append", 200]],
+        ["NInner", 0, ["Append", 3]], ["NInner", 0, ["Append", 4]], ["NAppend", [5]], ["NAppend", [6]]]))
+    cs.append(dict(kind="ndict", vk="VInt", ib=[0, 2], init=[[100, [1]]], ops=[
+        ["Assign", None, "repickle"], ["SetItem", 101, [1, 2, 3], True], ["SetItem", 3, [1], True],
+        ["Inner", 100, ["Append", 200], True], ["Inner", 100, ["Append", 2], False], ["Inner", 100, ["Append", 3], False]]))
     cs.append(dict(kind="nested", vk="VInst", ib=[0, 2], ob=[0, None], init=[], no_init=True, ops=[
         ["NAppend", [203]], ["NAppend", "cell"], ["NAppend", "nonevalue"], ["NAppend", [203, 200]], ["NSetInt", 0, "cell"],
         ["NInsert", 0, "nonevalue"], ["NExtend", [[203], "cell"]], ["NAssign", [[203], [200]], "plain"],
@@ -931,6 +983,8 @@ def run(ctx):
         # a third of the owners are falsy objects (a HasTraits class defining __len__ -> 0 or __bool__ -> False)
         for kind, cases in groups.items():
             for c in cases:
+                if rnd.random() < 0.3:
+                    c["hooks"] = True           # Int-like / Inc inner traits implemented by is_valid_for / value_for only
                 if rnd.random() < 0.25:
                     c["no_items"] = True        # List(..., items=False) etc.: validation does not depend on the items event
                     ctx.count("decl:items=False")
